@@ -263,7 +263,7 @@ def _shard(sh: Dict[str, Any]) -> Dict[str, Any]:
     def harness(e: Engine) -> None:
         kinds = [k0, 0, 0]
         for u in range(1, nn):
-            kinds[u] = e.choice(f"kind{u}", len(KINDS))
+            kinds[u] = sh[f"kind{u}"] if sh.get(f"kind{u}") is not None else e.choice(f"kind{u}", len(KINDS))
         ops: List[int] = []
         with Sim(kinds) as sim:
             if early:
@@ -290,7 +290,7 @@ def _shard(sh: Dict[str, Any]) -> Dict[str, Any]:
 
     eng = Engine(max_seconds=sh.get("budget", 300) * (6 if os.environ.get("VERIF_TIER_EFFECTIVE") == "thorough" else 1))
     eng.explore(harness)
-    return par.shard_result(eng, shard=f"kind0={KINDS[k0]},early={early}", cex=cex, samples=samples)
+    return par.shard_result(eng, shard=f"kind0={KINDS[k0]},early={early}" + "".join(f",kind{u}={KINDS[sh[f'kind{u}']]}" for u in (1, 2) if sh.get(f"kind{u}") is not None), cex=cex, samples=samples)
 
 
 # ----------------------------------------------------------- two threads, glue that blocks
@@ -402,6 +402,8 @@ def run(rep: Any, tier: str, seed: int) -> None:
                    "in-place replacement sys.modules[name] = other without removal", "histories longer than the bound"]
     rep.stubs = ["_glue.sys rebound to a private namespace whose .modules is a harness-owned dict pre-filled with 3 filler modules; replay uses the real sys.modules"]
     shards = [{"len": L, "names": nn, "kind0": k, "early": ea} for k in range(len(KINDS)) for ea in (True, False)]
+    if tier == "thorough":   # split further so that every shard finishes within its budget
+        shards = [dict(s_, kind1=k1, kind2=k2) for s_ in shards for k1 in range(len(KINDS)) for k2 in range(len(KINDS))]
     res = par.run_shards("harness.c17", "_shard", shards)
     for c in par.fold(rep, OB, res):
         rep.counterexample(OB, c, c["why"])
